@@ -13,6 +13,8 @@
 import Edn.Proofs.Complete
 import Edn.Proofs.Str
 import Edn.Proofs.IdentSound
+import Edn.Proofs.Sound
+import Edn.Proofs.CharSound
 
 namespace Edn.Properties.C03
 open Edn.Model Edn.Spec Edn.Proofs
@@ -85,5 +87,49 @@ theorem identifier_reader_sound (ctx : Ctx) (st st' : St) (v : Val) (h : readIde
     ∃ tok, st.rest = tok ++ st'.rest ∧ st'.calls = st.calls ∧ IdentLex tok ∧
       (st'.rest = [] ∨ ∃ c t, st'.rest = c :: t ∧ isDelim c = true) ∧ IdentDenotes tok (strip v) :=
   readIdentifier_sound ctx st st' v h
+
+/-- **The accepted language, exactly** (core configuration, no reader registry): `edn_read` returns
+    a tree with content `a` **iff** the input starts with a form of `Edn.Spec.Grammar.Form` that
+    denotes `a` and whose nesting is within the limit.  `Form` is a declarative grammar (no cursor,
+    fuel or dispatch table): numbers `CoreNum`, identifiers `IdentLex`/`IdentDenotes`, raw string
+    literals, characters, `##Inf`/`##-Inf`/`##NaN`, lists, vectors, sets and maps with pairwise
+    distinct members, tagged elements, blanks, comments and discards anywhere between forms; it
+    contains `Renders` (well-separated renderings) and also what the implementation accepts beyond
+    the published grammar (forms touching where a delimiter byte ends the token, tags spelled with
+    any identifier token, `##Inf` followed by anything, escapes checked only on decode). -/
+theorem core_reader_accepts_exactly_the_grammar (opts : Opts) (hreg : opts.registry = none) (input : Bytes) (a : Val) :
+    (∃ v, (read Cfg.core opts input).out = .value v ∧ strip v = a) ↔
+    ∃ k tok rest, k ≤ Edn.Generated.Tables.maxNestingDepth ∧ input = tok ++ rest ∧ Form k a tok rest :=
+  read_core_iff opts hreg input a
+
+/-- the same in every context (any depth, discard mode, call log, fuel): a returned value means a
+    form of the grammar was consumed, exactly its bytes, nothing was logged, and the nesting fits -/
+theorem core_value_reader_sound (opts : Opts) (hreg : opts.registry = none) (f d : Nat) (dm : Bool) (st st' : St) (v : Val)
+    (hd : d ≤ Edn.Generated.Tables.maxNestingDepth)
+    (h : readValue { cfg := Cfg.core, opts := opts } f d dm st = .ok v st') :
+    ∃ k tok, d + k ≤ Edn.Generated.Tables.maxNestingDepth ∧ st.rest = tok ++ st'.rest ∧ st'.calls = st.calls ∧
+      Form k (strip v) tok st'.rest :=
+  readValue_core_sound_fits opts hreg f d dm st st' v hd h
+
+/-- … and conversely every form that fits is read, in every context, as the value it denotes -/
+theorem core_form_is_read (opts : Opts) (hreg : opts.registry = none) (k : Nat) (a : Val) (tok rest : Bytes)
+    (h : Form k a tok rest) (d : Nat) (hd : d + k ≤ Edn.Generated.Tables.maxNestingDepth) (dm : Bool) (cl : List Call) (f : Nat)
+    (hf : 2 * (tok.length + rest.length) + 2 ≤ f) :
+    ∃ v, readValue { cfg := Cfg.core, opts := opts } f d dm { rest := tok ++ rest, calls := cl }
+          = .ok v { rest := rest, calls := cl } ∧ strip v = a :=
+  form_is_read opts hreg k a tok rest h d hd dm cl f hf
+
+/-- Character literals, exactness in every configuration: `\` + `body` followed by a delimiter (or
+    the end) reads as the character `cp` **iff** `body` spells `cp` (`CharTokX`: the four names;
+    `formfeed`, `backspace`, `oNNN` with the Clojure flag; `uXXXX`, and 5 or 6 hex digits with the
+    experimental flag; any single byte but blank ones) and `cp` is a code point -/
+theorem character_reader_is_the_grammar (ctx : Ctx) (body rest : Bytes) (cl : List Call) (cp : Nat) (hr : DelimStart rest) :
+    (∃ v, readCharacter ctx { rest := 0x5C :: (body ++ rest), calls := cl } = .ok v { rest := rest, calls := cl } ∧
+        strip v = .char hdr0 cp)
+      ↔ (CharTokX ctx.cfg body cp ∧ cp ≤ 0x10FFFF) :=
+  readCharacter_iff ctx body rest cl cp hr
+
+/-- non-vacuity: `[1"a"]` (no separator) is a form - a vector of the integer 1 and the string `a` -/
+example : (match (read Cfg.core {} "[1\"a\"]".toUTF8.toList).out with | .value _ => true | _ => false) = true := by decide +kernel
 
 end Edn.Properties.C03
